@@ -44,7 +44,7 @@ def main():
         res = []
         classes = []
         for c in checks:
-            out = sh(f"cd {ROOT} && ./check {c} --tier quick").stdout
+            out = sh(f"cd {ROOT} && VERIF_EVIDENCE_DIR=/dev/shm/acts-seed-evidence ./check {c} --tier quick").stdout
             det = "VIOLATION" in out
             res.append(f"{c}:{'DETECTED' if det else 'missed'}")
             for l in out.splitlines():
